@@ -61,6 +61,9 @@ def calculate_checksum_udp(packet: Packet):
     pseudo_header.extend(udp_data)
 
     calculated_checksum = ones_complement_checksum(pseudo_header)
+    # a computed UDP checksum of zero is transmitted as all ones (RFC 768)
+    if calculated_checksum == b"\x00\x00":
+        calculated_checksum = bytearray(b"\xff\xff")
 
     packet_checksum = packet.udp.sum.to_bytes(2, 'big')
     logging.info(f"expected checksum: 0x{calculated_checksum.hex()}, packet checksum: 0x{packet_checksum.hex()}")
